@@ -447,6 +447,20 @@ func (p *TermPool) bvBin(op Op, a, b *Term) *Term {
 			return p.BV(r, w)
 		}
 	}
+	// a - (a div b) * b is the remainder, also under the SMT-LIB conventions for b = 0 and
+	// INT_MIN / -1 (lemma: rem-from-div, checked by selftest); the product form defeats the
+	// bit-blasting solvers.
+	if op == OpBVSub && b.Op == OpBVMul && len(b.Args) == 2 {
+		for k := 0; k < 2; k++ {
+			q, d := b.Args[k], b.Args[1-k]
+			if (q.Op == OpBVSDiv || q.Op == OpBVUDiv) && q.Args[0] == a && q.Args[1] == d {
+				if q.Op == OpBVSDiv {
+					return p.bvBin(OpBVSRem, a, d)
+				}
+				return p.bvBin(OpBVURem, a, d)
+			}
+		}
+	}
 	// arithmetic on sign/zero-extended operands is canonicalised to the narrowest width that
 	// cannot overflow, then sign-extended (lemma: rewrite-extarith, checked by selftest)
 	switch op {
